@@ -14,15 +14,15 @@ def expectedAfter (orig fixed introduced : List Nat) (v : Nat) : Bool :=
   (orig.contains v && !fixed.contains v) || introduced.contains v
 
 /-- substitute requirement updates into a requirement list -/
-def applyUpdates (reqs : List (Nat × Nat)) (us : List ReqUpdate) : List (Nat × Nat) :=
+def applyUpdates (reqs : List (Key × Nat)) (us : List ReqUpdate) : List (Key × Nat) :=
   reqs.map fun (k, v) =>
     match us.find? (fun u => u.key = k ∧ u.frm = some v) with
     | some u => (k, u.to)
     | none => (k, v)
 
 structure Pipe (M : Type) where
-  requirements : M → List (Nat × Nat)
-  vulns : List (Nat × Nat) → List Nat                   -- resolve + match, a function of the requirements
+  requirements : M → List (Key × Nat)
+  vulns : List (Key × Nat) → List Nat                   -- resolve + match, a function of the requirements
   write : M → List ReqUpdate → M                        -- ReadWriter.Write then ReadWriter.Read
   patched : M → List ReqUpdate → M                      -- the strategy's in-memory manifest
 
